@@ -235,16 +235,15 @@ func (e *gExplorer) execute(s *gSubject, ops []*gOp, segs []gSeg) (out, naSeg in
 			a.result = guarded(a.op, node)
 		}()
 	}
-	timer := time.NewTimer(time.Hour)
-	defer timer.Stop()
+	// a fresh timer per wait: a reused one can deliver a stale tick after Stop+Reset
 	wait := func(d time.Duration) (gEvent, bool) {
-		if !timer.Stop() {
-			select {
-			case <-timer.C:
-			default:
-			}
+		select {
+		case ev := <-g.events:
+			return ev, true
+		default:
 		}
-		timer.Reset(d)
+		timer := time.NewTimer(d)
+		defer timer.Stop()
 		select {
 		case ev := <-g.events:
 			return ev, true
